@@ -73,3 +73,57 @@ pub fn back(e: &O) -> Expr {
 pub fn back_rules(opt: &[OptimizedRule]) -> Vec<Rule> {
     opt.iter().map(|r| Rule { name: r.name.clone(), ty: r.ty, expr: back(&r.expr) }).collect()
 }
+
+/// Independent bottom-up map over `Expr` (the harness' own traversal).
+pub fn map_bu(e: Expr, f: &mut dyn FnMut(Expr) -> Expr) -> Expr {
+    let mut b = |x: Box<Expr>, f: &mut dyn FnMut(Expr) -> Expr| Box::new(map_bu(*x, f));
+    let m = match e {
+        Expr::PosPred(x) => Expr::PosPred(b(x, f)),
+        Expr::NegPred(x) => Expr::NegPred(b(x, f)),
+        Expr::Seq(x, y) => {
+            let x = b(x, f);
+            let y = b(y, f);
+            Expr::Seq(x, y)
+        }
+        Expr::Choice(x, y) => {
+            let x = b(x, f);
+            let y = b(y, f);
+            Expr::Choice(x, y)
+        }
+        Expr::Opt(x) => Expr::Opt(b(x, f)),
+        Expr::Rep(x) => Expr::Rep(b(x, f)),
+        Expr::RepOnce(x) => Expr::RepOnce(b(x, f)),
+        Expr::RepExact(x, n) => Expr::RepExact(b(x, f), n),
+        Expr::RepMin(x, n) => Expr::RepMin(b(x, f), n),
+        Expr::RepMax(x, n) => Expr::RepMax(b(x, f), n),
+        Expr::RepMinMax(x, m, n) => Expr::RepMinMax(b(x, f), m, n),
+        Expr::Push(x) => Expr::Push(b(x, f)),
+        #[cfg(feature = "extras")]
+        Expr::NodeTag(x, t) => Expr::NodeTag(b(x, f), t),
+        e => e,
+    };
+    f(m)
+}
+
+/// The rewrite the repository pins for the list pass — `(x ~ y)* ~ x` => `x ~ (y ~ x)*` — written
+/// independently. Used only to decide whether a meaning change of the `list` pass is *that* known
+/// rewrite (known finding) or something else the pass did (violation).
+pub fn ref_list(rules: &[Rule]) -> Vec<Rule> {
+    rules
+        .iter()
+        .map(|r| Rule {
+            name: r.name.clone(),
+            ty: r.ty,
+            expr: map_bu(r.expr.clone(), &mut |e| match e {
+                Expr::Seq(l, r) => match *l {
+                    Expr::Rep(inner) => match *inner {
+                        Expr::Seq(l1, l2) if l1 == r => Expr::Seq(l1, Box::new(Expr::Rep(Box::new(Expr::Seq(l2, r))))),
+                        other => Expr::Seq(Box::new(Expr::Rep(Box::new(other))), r),
+                    },
+                    other => Expr::Seq(Box::new(other), r),
+                },
+                e => e,
+            }),
+        })
+        .collect()
+}
